@@ -48,6 +48,18 @@ func refKind(t int) directive.Enumeration {
 		return directive.Method
 	case tDescription:
 		return directive.Description
+	case tEnum:
+		return directive.Enum
+	case tTypeObj, tTypeAllOf, tTypeNested:
+		return directive.Type
+	case tRespRef:
+		return directive.HTTPResponseCode
+	case tURLParam:
+		return directive.URL
+	case tPathDir:
+		return directive.Path
+	case tRequestObj:
+		return directive.Request
 	}
 	return directive.Jsight
 }
